@@ -232,6 +232,21 @@ and compile times for games.
 #![warn(missing_docs)]
 #![allow(clippy::tabs_in_doc_comments)]
 
+#[cfg(feature = "verif-hooks")]
+#[allow(missing_docs)]
+pub mod verif_hooks;
+
+#[cfg(feature = "verif-hooks")]
+macro_rules! verif_hook {
+	($site:expr, $a:expr, $b:expr) => {
+		$crate::verif_hooks::hit($site, ($a) as u64, ($b) as u64)
+	};
+}
+#[cfg(not(feature = "verif-hooks"))]
+macro_rules! verif_hook {
+	($site:expr, $a:expr, $b:expr) => {};
+}
+
 pub mod backend;
 pub mod clock;
 pub mod command;
